@@ -4,7 +4,20 @@
 
 pub use libc::*;
 
+/// Hooked `close(2)`, shadows the glob import above.
+#[cfg(a10_verif)]
+pub unsafe fn close(fd: c_int) -> c_int {
+    if let Some(hook) = super::verif_hooks::table().close {
+        return hook(fd);
+    }
+    libc::close(fd)
+}
+
 pub unsafe fn io_uring_setup(entries: c_uint, p: *mut io_uring_params) -> c_int {
+    #[cfg(a10_verif)]
+    if let Some(hook) = super::verif_hooks::table().io_uring_setup {
+        return hook(entries, p);
+    }
     syscall(SYS_io_uring_setup, entries as c_long, p as c_long) as _
 }
 
@@ -14,6 +27,10 @@ pub unsafe fn io_uring_register(
     arg: *const c_void,
     nr_args: c_uint,
 ) -> c_int {
+    #[cfg(a10_verif)]
+    if let Some(hook) = super::verif_hooks::table().io_uring_register {
+        return hook(fd, opcode, arg, nr_args);
+    }
     syscall(
         SYS_io_uring_register,
         fd as c_long,
@@ -31,6 +48,10 @@ pub unsafe fn io_uring_enter2(
     arg: *const libc::c_void,
     size: usize,
 ) -> c_int {
+    #[cfg(a10_verif)]
+    if let Some(hook) = super::verif_hooks::table().io_uring_enter2 {
+        return hook(fd, to_submit, min_complete, flags, arg, size);
+    }
     syscall(
         SYS_io_uring_enter,
         fd as c_long,
